@@ -9,12 +9,16 @@
    the S5 oracle of props/c05.py. *)
 From Coq Require Import Reals.
 From Coquelicot Require Import Coquelicot.
-From SpdVerif Require Import Base.Rx Base.CxPM Model.PMParams Model.PMLimit Gen.PMIntegrand Proofs.C06_algebra Proofs.C06_swap
+From SpdVerif Require Import Base.Rx Base.CxPM Model.PMParams Model.PMLimit Gen.PMIntegrand Gen.PMSimpson Proofs.C06_algebra Proofs.C06_swap
   Proofs.C06_defined Proofs.C05_closure Proofs.C05_limit Proofs.C05_sinc Proofs.C05_simpson_tac Proofs.C05_simpson.
 Local Open Scope R_scope.
 
 Theorem C05_integrand_is_closure : forall p z, pm_integrand p z = pm_closure_of p z.
 Proof. exact integrand_is_closure. Qed.
+
+(* the fibre-coupled amplitude is 1/2 x (quadrature of the integrand over [-1, 1]); Q is `integrator.integrate` *)
+Theorem C05_fiber_coupling_form : forall Q p, pm_fiber_coupling Q p = Cmult (RtoC (1 / 2)) (Q (pm_integrand p) (-1) 1).
+Proof. exact fiber_coupling_form. Qed.
 
 (* clause 1: collinear reduction of the generated integrand: A5 = A7 = 0, exponent A10 - A6^2 (A2 + A4 - A9) / denom2 *)
 Theorem C05_collinear_reduction : forall p z, pm_collinear p -> pm_physical p ->
@@ -108,6 +112,12 @@ Proof. exact simpson48_plane_wave. Qed.
 Theorem C05_simpson_default_panels : simpson_divs 50 = 48%nat.
 Proof. exact simpson_divs_50. Qed.
 
+(* the Simpson rule of the theorem above is the one translated from src/math/integration.rs, and Integrator::default() is divs = 50 *)
+Theorem C05_simpson_model_is_source :
+  (forall f a b divs, gen_simpson f a b divs = simpson f a b divs) /\
+  gen_default_simpson_divs = 50%nat /\ (gen_simpson_min_divs <= simpson_divs 50)%nat.
+Proof. exact (conj simpson_is_generated default_divs_is_50). Qed.
+
 (* non-vacuity *)
 Example C05_collinear_example : pm_collinear pm_example_collinear /\ pm_physical pm_example_collinear.
 Proof. exact collinear_example. Qed.
@@ -116,6 +126,7 @@ Example C05_limit_hypotheses_example : 0 < 4e-6 /\ 0 < 9e-6 /\ 0 <= 6.25e-6 /\ (
 Proof. exact limit_hypotheses_example. Qed.
 
 Print Assumptions C05_integrand_is_closure.
+Print Assumptions C05_fiber_coupling_form.
 Print Assumptions C05_collinear_reduction.
 Print Assumptions C05_collinear_coefficients.
 Print Assumptions C05_delta_k_bookkeeping.
@@ -127,3 +138,4 @@ Print Assumptions C05_walkoff_peak_partial.
 Print Assumptions C05_peak_integrals.
 Print Assumptions C05_simpson48_sinc.
 Print Assumptions C05_simpson_default_panels.
+Print Assumptions C05_simpson_model_is_source.
